@@ -5,12 +5,15 @@ mod e1;
 mod e2;
 mod e4;
 mod e5;
+mod c06;
+mod c10;
 mod c14;
 mod c15;
 mod c16;
 mod c17;
 mod c18;
 mod c19;
+mod c20;
 mod checks_e5;
 mod http;
 mod checks_e4;
@@ -57,6 +60,51 @@ fn main() {
                 "C09" => checks_e1::run("C09", &tier, seed),
                 "C12" => e6::run(&tier, seed),
                 "C13" => checks_e4::run("C13", &tier, seed),
+                "C20" => checks_e5::run(
+                    checks_e5::Plan {
+                        prop: "C20",
+                        level: "exploration",
+                        rule: "source stores produced by E1 histories (several contexts incl. registrations that arrived by import, forever / head:K / time TTLs, removed frames, re-imports, content shared between frames, a reopen); export = all-contexts read + CAS reads; import into an empty store behind the real HTTP API through POST /cas + POST /import in a seeded permutation with ~20 % duplicates, in half of the cases with every context registration imported after the frames of its context; oracle: the complete observation sweep (both read paths over all and per context, get of every id, heads over the (topic x context) pools, raw three-partition contents, CAS bytes, hash returned by POST /cas) is equal on source and target, re-importing a frame leaves the raw partitions unchanged, a NUL-topic frame is rejected without trace, and a probe append into every context id is accepted by both stores or by neither; non-trivial = source with >=5 frames, >=2 contexts and a removed frame; distinct by source op-trace hash",
+                        quick: 48,
+                        thorough: 500,
+                        par: 12,
+                        assumptions: vec!["source and target run under the same virtual clock", "the server's own xs.start frame is removed from the target before importing (it is not part of the export)"],
+                        required: vec!["source_frames", "observations_compared", "idempotence_checks"],
+                    },
+                    &tier,
+                    seed,
+                    |s, _| c20::run_case(s),
+                ),
+                "C10" => checks_e5::run(
+                    checks_e5::Plan {
+                        prop: "C10",
+                        level: "exploration",
+                        rule: "three kinds of cases on a real serve process. matrix: byte strings {empty, 1 B, non-UTF-8, 8191, 8192, 8193, 65537, random, sometimes 1 MiB} through cas_insert_sync, cas_writer_sync and cas_writer (several chunk sizes), POST /cas, POST /{topic} single and chunked; texts through .append (string / binary / record) and the return value of a command, a handler return value and generator output; every reported hash must equal a SHA-256 the harness computes itself over the documented rendering, content is read back byte for byte through the Store API and GET /cas, and the same hashes give the same bytes after a restart. race: 2-6 HTTP writers posting unique bodies (10 B - 70 kB, some chunked) with jitter at the append sync points while three followers and a handler read the content of every frame the moment it is delivered. kill: four writers posting chunked bodies, SIGKILL after 20-420 ms, reopen, every visible frame with a hash must have matching content; distinct by (mode, seed); every case non-trivial unless it observed nothing",
+                        quick: 18,
+                        thorough: 150,
+                        par: 9,
+                        assumptions: vec!["expected hashes come from the sha2 crate, not from ssri/cacache", "content durability against power loss is not claimed by the property and not tested"],
+                        required: vec!["entry_point_writes_checked", "immediate_content_reads", "frames_checked_after_kill"],
+                    },
+                    &tier,
+                    seed,
+                    |s, i| c10::run_case(s, i),
+                ),
+                "C06" => checks_e5::run(
+                    checks_e5::Plan {
+                        prop: "C06",
+                        level: "exploration",
+                        rule: "cases on a real serve process with five contexts (zero, two appended, two numerically adjacent ids registered by import); the same topics are written in every context and every frame carries a tag naming its context; access paths observed per context: Store read_sync/read with last-id (own and foreign ids) and limit, head, five followers (plain, tail, heartbeat, limit) covering history and live delivery, HTTP GET /?context-id= (NDJSON and SSE, with limit), GET /head/{t}?context= with and without follow, handlers with the same name in two contexts (dispatch, .cat / .cat --limit / .head / .head --context inside the script, an explicit .append --context <other>), a command (outputs, .cat/.head inside), a generator; any frame whose tag or context differs from the scope is a violation; non-trivial = case with >50 scoped observations and both handlers reporting; distinct by seed",
+                        quick: 24,
+                        thorough: 240,
+                        par: 12,
+                        assumptions: vec!["commands are defined and called in the same context (the statement does not say whose context a cross-context call's .cat sees)"],
+                        required: vec!["scoped_observations_checked", "handler_script_reports", "head_follow_streams"],
+                    },
+                    &tier,
+                    seed,
+                    |s, _| c06::run_case(s),
+                ),
                 "C17" => checks_e5::run(
                     checks_e5::Plan {
                         prop: "C17",
